@@ -99,9 +99,10 @@ def gen_cases(tier, seed):
                     nfmt = rng.choice(["persistent", "transient", "email", "given"])
                     cid = "%s-r%d-a%d-e%d-%s-%s-%s" % (icls, sr, sa, enc, binding, alg, nfmt)
                     skew = rng.choice([0, 0, 180, 3600])
-                    cases.append({"id": cid, "sig": [icls, nfmt, binding, sr, sa, enc, alg, skew > 0], "icls": icls, "sr": sr, "sa": sa, "enc": enc, "binding": binding,
+                    extra = rng.choice([None, None, "locality-ip", "locality-ipv6", "locality-dns", "instant"])
+                    cases.append({"id": cid, "sig": [icls, nfmt, binding, sr, sa, enc, alg, skew > 0, extra], "icls": icls, "sr": sr, "sa": sa, "enc": enc, "binding": binding,
                                   "alg": alg, "nfmt": nfmt, "classref": rng.choice(CLASSREFS), "snooa": rng.choice([None, 3600, 86400 * 3]),
-                                  "lifetime": rng.choice([5, 15, 600]), "skew": skew})
+                                  "lifetime": rng.choice([5, 15, 600]), "skew": skew, "authn_extra": extra})
     for (sr, sa, enc) in combos:
         cases.append({"id": "deferred-r%d-a%d-e%d" % (sr, sa, enc), "sig": ["deferred", sr, sa, enc], "kind": "interleaved", "mode": "deferred",
                       "sr": sr, "sa": sa, "enc": enc, "users": 4})
@@ -247,6 +248,16 @@ def run_case(case, ctx):
     if case["snooa"]:
         kw["session_not_on_or_after"] = clock.iso(t_issue + case["snooa"])
     authn = {"class_ref": case["classref"], "authn_auth": "https://idp.example.org/authn"}
+    # the optional pieces of authentication information an application may hand over as well
+    extra = case.get("authn_extra")
+    if extra == "locality-ip":
+        authn["subject_locality"] = "192.0.2.7"
+    elif extra == "locality-ipv6":
+        authn["subject_locality"] = "2001:db8::7"
+    elif extra == "locality-dns":
+        authn["subject_locality"] = "client7.campus.example.org"
+    elif extra == "instant":
+        authn["authn_instant"] = "2020-02-02T02:02:02Z"
     try:
         resp = idp.create_authn_response(dict((k, list(v)) for k, v in ident.items()), rid, dest, fed.SP_EID, userid="user-%s" % case["icls"], authn=authn,
                                          sign_response=bool(case["sr"]), sign_assertion=bool(case["sa"]), encrypt_assertion=bool(case["enc"]), **kw)
@@ -257,6 +268,8 @@ def run_case(case, ctx):
     viol = []
     desc = "identity=%s nameid=%s binding=%s sign_response=%d sign_assertion=%d encrypt=%d alg=%s accepted_time_diff=%d" % (
         case["icls"], case["nfmt"], case["binding"], case["sr"], case["sa"], case["enc"], case["alg"], case.get("skew", 0))
+    if case.get("authn_extra"):
+        desc += " authn-info=%s" % case["authn_extra"]
     # structure of the plaintext message: exactly the asked attributes and values, nothing else
     if not case["enc"]:
         root = ET.fromstring(xml.encode("utf-8"))
